@@ -24,7 +24,7 @@ from halmos.utils import EVM  # noqa: E402
 
 OPS = dict(STOP=0, ADD=1, MUL=2, SUB=3, DIV=4, SDIV=5, MOD=6, SMOD=7, ADDMOD=8, MULMOD=9, EXP=0xA, SIGNEXTEND=0xB,
            LT=0x10, GT=0x11, SLT=0x12, SGT=0x13, EQ=0x14, ISZERO=0x15, AND=0x16, OR=0x17, XOR=0x18, NOT=0x19, SHL=0x1B, SHR=0x1C, SAR=0x1D,
-           ADDRESS=0x30, CALLDATALOAD=0x35, CODESIZE=0x38, CODECOPY=0x39, EXTCODECOPY=0x3C, POP=0x50, MLOAD=0x51, MSTORE=0x52, GAS=0x5A, CALL=0xF1, STATICCALL=0xFA, RETURNDATASIZE=0x3D, JUMP=0x56, JUMPI=0x57, JUMPDEST=0x5B, DUP1=0x80, DUP2=0x81, SWAP1=0x90,
+           ADDRESS=0x30, CALLDATALOAD=0x35, CODESIZE=0x38, CODECOPY=0x39, EXTCODECOPY=0x3C, POP=0x50, MLOAD=0x51, MSTORE=0x52, SLOAD=0x54, SSTORE=0x55, TLOAD=0x5C, TSTORE=0x5D, GAS=0x5A, CALL=0xF1, STATICCALL=0xFA, RETURNDATASIZE=0x3D, JUMP=0x56, JUMPI=0x57, JUMPDEST=0x5B, DUP1=0x80, DUP2=0x81, SWAP1=0x90,
            RETURN=0xF3, REVERT=0xFD, INVALID=0xFE)
 
 
